@@ -169,6 +169,27 @@ pub fn run(ctx: &mut Ctx) {
             ctx.check(&case, "representative-inconsistent-permutation", &["REP.representative.ensures.one-plan-every-component"], ok, format!("{:?}", r), "every component permuted by the same plan".into());
         }
     }
+    // Rewrite for WORegisterMsg: every variant is rewritten to the SAME variant (request ids untouched, values / internal
+    // messages rewritten by the plan)
+    {
+        use stateright::actor::write_once_register::WORegisterMsg as W;
+        let plan = RewritePlan::<Id, _>::from_values_to_sort(&vec![2u8, 0, 1]);
+        let p = |i: usize| Id::from([2usize, 0, 1][i]);
+        let cases: Vec<(&str, W<u64, Id, Id>, W<u64, Id, Id>)> = vec![
+            ("internal", W::Internal(Id::from(0)), W::Internal(p(0))),
+            ("put", W::Put(7, Id::from(1)), W::Put(7, p(1))),
+            ("get", W::Get(8), W::Get(8)),
+            ("putok", W::PutOk(9), W::PutOk(9)),
+            ("putfail", W::PutFail(10), W::PutFail(10)),
+            ("getok", W::GetOk(11, Id::from(2)), W::GetOk(11, p(2))),
+        ];
+        for (name, m, want) in cases {
+            let case = format!("wo-msg-rewrite:{}", name);
+            if !ctx.want(&case) { continue; }
+            let got = m.rewrite(&plan);
+            ctx.check(&case, "message-rewrite-changes-the-variant", &["RW.wo_msg_rewrite.ensures.same-variant"], got == want, format!("{:?}", got), format!("{:?}", want));
+        }
+    }
     // Network::rewrite on every network kind AFTER a delivery (the duplicating network remembers the last delivery:
     // that envelope is part of the state and must be permuted like every other endpoint)
     for kind in ["dup", "nondup", "ordered"] {
@@ -183,11 +204,14 @@ pub fn run(ctx: &mut Ctx) {
         // values [2,0,1] sort to [0,1,2]: old 0 -> 2, old 1 -> 0, old 2 -> 1
         let plan = RewritePlan::<Id, _>::from_values_to_sort(&vec![2u8, 0, 1]);
         let p = |i: usize| [2usize, 0, 1][i];
-        let mut net = mk(vec![e(0, 1, 2), e(2, 1, 0), e(1, 0, 0)]);
+        // (the envelope 0 -> 1 is in flight TWICE: a non-duplicating network counts copies, an ordered one queues both)
+        let mut net = mk(vec![e(0, 1, 2), e(2, 1, 0), e(1, 0, 0), e(0, 1, 2)]);
         stateright::verif_facade::network_on_deliver(&mut net, e(2, 1, 0));
-        let mut want = mk(vec![e(p(0), p(1), p(2)), e(p(2), p(1), p(0)), e(p(1), p(0), p(0))]);
+        let mut want = mk(vec![e(p(0), p(1), p(2)), e(p(2), p(1), p(0)), e(p(1), p(0), p(0)), e(p(0), p(1), p(2))]);
         stateright::verif_facade::network_on_deliver(&mut want, e(p(2), p(1), p(0)));
         let got = net.rewrite(&plan);
+        let same_len = got.len() == net.len();
+        ctx.check(&format!("{}:len", case), "network-rewrite-not-the-permuted-network", &["RW.network_rewrite.ensures.unordered-non-duplicating"], same_len, format!("{} messages after rewriting {}", got.len(), net.len()), "rewriting keeps every copy in flight".into());
         ctx.check(&case, "network-rewrite-not-the-permuted-network", &["RW.rewrite.ensures.unordered-duplicating", "RW.rewrite.ensures.unordered-non-duplicating", "RW.rewrite.ensures.ordered"], got == want,
             format!("{:?}", got), format!("{:?}", want));
     }
